@@ -296,12 +296,22 @@ impl<SP: StorageProvider, PS: PolicyStore> Transaction<SP, PS> {
         // Try to run command, or revert if failed.
         sink.begin();
         let checkpoint = perspective.checkpoint();
-        if let Err(e) = policy.call_rule(
+        // Storing the command can fail after its rule ran (e.g. its parent
+        // address does not match the perspective head): that is a rejection
+        // too and must undo the rule's fact writes and effects.
+        let result = match policy.call_rule(
             command,
             perspective,
             sink,
             CommandPlacement::OnGraphAtOrigin,
         ) {
+            Ok(()) => perspective
+                .add_command(command)
+                .map(|_| ())
+                .map_err(ClientError::from),
+            Err(e) => Err(e.into()),
+        };
+        if let Err(e) = result {
             perspective.revert(checkpoint)?;
             sink.rollback();
             if fresh {
@@ -317,9 +327,8 @@ impl<SP: StorageProvider, PS: PolicyStore> Transaction<SP, PS> {
                     self.heads.insert(parent.id, loc);
                 }
             }
-            return Err(e.into());
+            return Err(e);
         }
-        perspective.add_command(command)?;
         sink.commit();
 
         self.phead = Some(command.id());
